@@ -5,7 +5,7 @@ import subprocess
 import tempfile
 from concurrent.futures import ThreadPoolExecutor
 
-from harness.common import Prop, canon, VERIF, case_hash, run_driver
+from harness.common import Prop, canon, VERIF, case_hash, run_driver, scale
 from harness import gen_build as G
 from harness import gen_models as M
 from harness import cxx_run as X
@@ -46,7 +46,7 @@ class C06(Prop):
         return d
 
     def streams(self, rng, tier):
-        n = 60 if tier == 'quick' else 3000
+        n = 60 if tier == 'quick' else scale(6000)
         cases = [self._strip(G.gen_case(rng)) for _ in range(n)]
         # witnesses of recorded findings: ports `api`/`Api`
         c = G.gen_case(rng, want_mc=False)
@@ -178,7 +178,7 @@ class C06(Prop):
                 failures.append({'case': {'prefixes': [None, ['Pfx']]}, 'impl': log[-800:], 'model': None,
                                  'failed': ['support headers with different prefixes do not coexist in one translation unit'], 'noshrink': True})
             # B. whole programs, files verbatim (no guard shim): shell used from a second TU and linked
-            nprog = 8 if tier == 'quick' else 120
+            nprog = 8 if tier == 'quick' else scale(160)
             cases = []
             have_k5 = False
             tries = 0
